@@ -421,6 +421,38 @@ pub fn run_shape<R: RecUni>(
                 }
             }
         }
+        // the verifier's own public values (custom-AIR universe): each one altered
+        for pos in 0..R::batch_pv_len(&common) {
+            let pstr = format!("#pv{pos}");
+            for mode in ["fixed", "rebuild"] {
+                if let Some((m, p, _)) = only {
+                    if m != mode || p != pstr {
+                        continue;
+                    }
+                }
+                let Some(c2) = R::batch_pv_fault(&common, pos, mix(ctx_seed, idx)) else { continue };
+                out.count("fired_public_value");
+                let n = R::batch_native(s, &proof, &c2);
+                let c = if mode == "fixed" {
+                    R::batch_run(&built, &proof, &c2).0
+                } else {
+                    match R::batch_build(s, &proof, &c2) {
+                        Ok(b) => R::batch_run(&b, &proof, &c2).0,
+                        Err(v) => v,
+                    }
+                };
+                out.evals += 1;
+                out.steps += 1;
+                out.distinct.insert(crate::core::prng::fnv64(format!("batch:{mode}:public_value").as_bytes()));
+                if n.is_ok() != c.accepts() {
+                    out.violate(
+                        format!("batch:{mode}:public_value:{}", verdict_pair(&n, &c)),
+                        format!("public value {pos} altered: {} (native: {}; circuit: {})", verdict_pair(&n, &c), n.clone().err().unwrap_or_default().chars().take(120).collect::<String>(), c.msg().chars().take(160).collect::<String>()),
+                        detail(mode, &pstr, Fault::Add1),
+                    );
+                }
+            }
+        }
     }
 }
 
